@@ -18,6 +18,7 @@ HANDLER_TYPES = ["ValueError", "KeyError", "LookupError", "E1", "E2", "Exception
                  "BaseException", "Fault"]
 RVARS = ["r1", "r2", "r3"]
 CTXS = ["module", "fn", "loop", "discard"]
+ALL_CTXS = CTXS + ["afn"]
 
 
 # ---------------------------------------------------------------------------
@@ -54,6 +55,71 @@ class FCM:
         return False
 
 
+class AFCM(FCM):
+    """Asynchronous context manager; `sus` makes __aenter__/__aexit__ really suspend once."""
+
+    def __init__(self, tr, k, mode="plain", log_new=False, sus=False):
+        FCM.__init__(self, tr, k, mode, log_new)
+        self.sus = sus
+
+    async def __aenter__(self):
+        if self.sus:
+            import asyncio
+            await asyncio.sleep(0)
+        self.tr.L(f"{self.k}:aenter", None)
+        return f"m{self.k}"
+
+    async def __aexit__(self, et, ev, tb):
+        if self.sus:
+            import asyncio
+            await asyncio.sleep(0)
+        self.tr.L(f"{self.k}:aexit", ev)
+        if et is None:
+            return False
+        if self.mode == "suppall":
+            return True
+        if self.mode == "supp":
+            return issubclass(et, Exception)
+        return False
+
+    __enter__ = __exit__ = None
+
+
+GROUP_FAULTS = ["G:VK", "G:N"]
+
+
+def make_group(name, n):
+    if name == "G:VK":
+        return BaseExceptionGroup(f"f{n}", [ValueError(n), KeyError(n)])
+    if name == "G:N":
+        return BaseExceptionGroup(f"f{n}", [E1(n), BaseExceptionGroup(f"f{n}i", [KeyError(n), E2(n), ValueError(n)])])
+    raise KeyError(name)
+
+
+class Trace09(Trace):
+    """The failpoint, extended with exception-group faults."""
+
+    def L(self, k, v=None):
+        exc = self.plan.get(self.n + 1)
+        if exc is not None and exc.startswith("G:"):
+            self.n += 1
+            self.events.append([k, "!" + exc])
+            raise make_group(exc, self.n)
+        return Trace.L(self, k, v)
+
+
+def exc_tree(e):
+    """Type tree with leaf identity tokens of an escaping exception (groups recursively)."""
+    if isinstance(e, BaseExceptionGroup):
+        return [type(e).__name__, e.message, [exc_tree(x) for x in e.exceptions]]
+    return [type(e).__name__, [token(a) for a in getattr(e, "args", ())][:3]]
+
+
+def run_coro(coro):
+    import asyncio
+    return asyncio.run(coro)
+
+
 CTORS = {("plain", False): "CM", ("supp", False): "CMS", ("suppall", False): "CMA",
          ("plain", True): "NCM", ("supp", True): "NCMS", ("suppall", True): "NCMA"}
 
@@ -62,6 +128,9 @@ def env09(tr):
     env = {"L": tr.L, "IDENT": lambda x: x, "E1": E1, "E2": E2, "Fault": Fault, "e": SENT}
     for (mode, new), name in CTORS.items():
         env[name] = (lambda mode, new: (lambda k: FCM(tr, k, mode, new)))(mode, new)
+        env["A" + name] = (lambda mode, new: (lambda k: AFCM(tr, k, mode, new)))(mode, new)
+        env["SA" + name] = (lambda mode, new: (lambda k: AFCM(tr, k, mode, new, True)))(mode, new)
+    env["RUN"] = run_coro
     for r in RVARS:
         env[r] = r + "init"
     return env
@@ -71,7 +140,9 @@ def env09(tr):
 # generator
 
 class Gen09:
-    def __init__(self, rng, max_depth=3, budget=26):
+    def __init__(self, rng, max_depth=3, budget=26, star_p=0.0, group_p=0.0):
+        self.star_p = star_p          # probability that a `try` uses except* handlers
+        self.group_p = group_p        # probability that a raise form raises an exception group
         self.rng = rng
         self.max_depth = max_depth
         self.budget = budget
@@ -112,6 +183,8 @@ class Gen09:
         if kind == "with":
             return self.with_form(d, sc)
         if kind == "raise":
+            if rng.random() < self.group_p:
+                return {"op": "raiseg", "k": self.k(), "g": self.group(0)}
             return {"op": "raise", "t": rng.choice(FAULT_NAMES), "k": self.k()}
         if kind == "reraise":
             return {"op": "reraise"}
@@ -125,6 +198,17 @@ class Gen09:
         if kind == "ret":
             return {"op": "ret", "e": self.leaf() if rng.random() < 0.7 else self.form(d, sc)}
         raise AssertionError(kind)
+
+    def group(self, depth):
+        """Members of an exception group: leaf type names or nested member lists."""
+        rng = self.rng
+        out = []
+        for _ in range(rng.randint(1, 3)):
+            if depth < 2 and rng.random() < 0.3:
+                out.append(self.group(depth + 1))
+            else:
+                out.append(rng.choice(FAULT_NAMES))
+        return out
 
     def compound(self, d, sc):
         return self.try_form(d, sc) if self.rng.random() < 0.55 else self.with_form(d, sc)
@@ -157,12 +241,20 @@ class Gen09:
         node["b"] = body
         hs = []
         nh = rng.choice([0, 1, 1, 1, 2, 2, 3])
+        star = rng.random() < self.star_p
+        if star:
+            nh = max(nh, 1)
+        node["star"] = star
         for i in range(nh):
             sp = self.spec(last=(i == nh - 1))
+            while star and sp["form"] == "all":     # `except*` needs a type
+                sp = self.spec(last=False)
             var = None
             if sp["form"] != "all" and rng.random() < 0.55:
                 var = rng.choice(["e", "e", "u"])
             sc2 = dict(sc, in_handler=True)
+            if star:
+                sc2["in_fn"] = False                # Python: no `return` in an except* block
             if var:
                 sc2["hvars"] = sc["hvars"] + [var]
                 sc2["hbound"] = sc["hbound"] | {var}
@@ -198,6 +290,9 @@ class Gen09:
             mode = rng.choices(["plain", "supp", "suppall"], [5, 3, 1.5])[0]
             ms.append({"var": var, "k": k, "mode": mode, "stmt": rng.random() < 0.25,
                        "new": rng.random() < 0.3})
+            if sc.get("in_async") and rng.random() < 0.6:
+                ms[-1]["async"] = True
+                ms[-1]["sus"] = rng.random() < 0.3
             if var and var.startswith("m"):
                 wv.append(var)
         node["single"] = (n == 1 and ms[0]["var"] is None and rng.random() < 0.5)
@@ -207,9 +302,11 @@ class Gen09:
         return node
 
 
-def gen09(rng, ctx, max_depth=3):
-    g = Gen09(rng, max_depth=max_depth, budget=rng.choice([10, 16, 22, 30]))
-    sc = {"wvars": [], "hvars": [], "hbound": frozenset(), "in_handler": False, "in_fn": ctx == "fn"}
+def gen09(rng, ctx, max_depth=3, star=False):
+    g = Gen09(rng, max_depth=max_depth, budget=rng.choice([10, 16, 22, 30]),
+              star_p=0.7 if star else 0.0, group_p=0.5 if star else 0.0)
+    sc = {"wvars": [], "hvars": [], "hbound": frozenset(), "in_handler": False,
+          "in_fn": ctx in ("fn", "afn"), "in_async": ctx == "afn"}
     top = []
     if rng.random() < 0.25:
         top.append(g.form(0, sc))
@@ -248,6 +345,30 @@ def _hy_spec(sp, var):
     return f"[{var} {inner}]" if var else f"[{inner}]"
 
 
+def _ctor(m):
+    base = CTORS[(m["mode"], m["new"])]
+    if m.get("async"):
+        return ("SA" if m.get("sus") else "A") + base
+    return base
+
+
+def _hy_group(members, name):
+    """(BaseExceptionGroup "g7" [(ValueError "g7.0") (BaseExceptionGroup "g7.1" [...])])"""
+    parts = []
+    for i, m in enumerate(members):
+        nm = f"{name}.{i}"
+        parts.append(_hy_group(m, nm) if isinstance(m, list) else f'({m} "{nm}")')
+    return f'(BaseExceptionGroup "{name}" [' + " ".join(parts) + "])"
+
+
+def _py_group(members, name):
+    parts = []
+    for i, m in enumerate(members):
+        nm = f"{name}.{i}"
+        parts.append(_py_group(m, nm) if isinstance(m, list) else f"{m}('{nm}')")
+    return f"BaseExceptionGroup('{name}', [" + ", ".join(parts) + "])"
+
+
 def H(n):
     op = n["op"]
     if op == "lit":
@@ -262,6 +383,8 @@ def H(n):
         return f"({'setx' if n['x'] else 'setv'} {n['n']} {H(n['e'])})"
     if op == "raise":
         return f"(raise ({n['t']} \"r{n['k']}\"))"
+    if op == "raiseg":
+        return f"(raise {_hy_group(n['g'], 'g' + str(n['k']))})"
     if op == "reraise":
         return "(raise)"
     if op == "ret":
@@ -269,7 +392,8 @@ def H(n):
     if op == "try":
         s = "(try" + "".join(" " + H(x) for x in n["b"])
         for h in n["hs"]:
-            s += f" (except {_hy_spec(h['spec'], h['var'])}" + "".join(" " + H(x) for x in h["b"]) + ")"
+            kw = "except*" if h.get("star", n.get("star")) else "except"
+            s += f" ({kw} {_hy_spec(h['spec'], h['var'])}" + "".join(" " + H(x) for x in h["b"]) + ")"
         if n["else"] is not None:
             s += " (else" + "".join(" " + H(x) for x in n["else"]) + ")"
         if n["fin"] is not None:
@@ -278,12 +402,13 @@ def H(n):
     if op == "with":
         items = []
         for m in n["ms"]:
-            ctor = CTORS[(m["mode"], m["new"])]
+            ctor = _ctor(m)
             ex = f"(do (setv tm{m['k']} {m['k']}) ({ctor} tm{m['k']}))" if m["stmt"] else f"({ctor} {m['k']})"
+            pre = ":async " if m.get("async") else ""
             if n.get("single"):
-                items.append(ex)
+                items.append(pre + ex)
             else:
-                items.append(f"{m['var'] or '_'} {ex}")
+                items.append(f"{pre}{m['var'] or '_'} {ex}")
         return "(with [" + " ".join(items) + "]" + "".join(" " + H(x) for x in n["b"]) + ")"
     raise AssertionError(op)
 
@@ -297,6 +422,9 @@ def render_hy(prog):
     if ctx == "fn":
         init = "(setv " + " ".join(f'{r} "{r}init"' for r in RVARS) + ")"
         return "(defn f []\n  " + "\n  ".join([init] + forms) + ")\n(setv RESULT (f))"
+    if ctx == "afn":
+        init = "(setv " + " ".join(f'{r} "{r}init"' for r in RVARS) + ")"
+        return "(defn :async f []\n  " + "\n  ".join([init] + forms) + ")\n(setv RESULT (RUN (f)))"
     if ctx == "loop":
         body = forms[:-1] + [f"(.append RS {forms[-1]})"]
         return "(setv RS [])\n(for [i [0 1]]\n  " + "\n  ".join(body) + ")\n(setv RESULT RS)"
@@ -358,6 +486,9 @@ def P(n, out, ind, sc, bare):
     if op == "raise":
         out.append(f"{ind}raise {n['t']}('r{n['k']}')")
         return "None"
+    if op == "raiseg":
+        out.append(f"{ind}raise {_py_group(n['g'], 'g' + str(n['k']))}")
+        return "None"
     if op == "reraise":
         out.append(f"{ind}raise")
         return "None"
@@ -380,7 +511,8 @@ def P(n, out, ind, sc, bare):
                 tw = f"{h['var']}__{n['id']}_{i}"
                 sc2 = dict(sc, **{h["var"]: tw})
                 as_ = f" as {tw}"
-            out.append(f"{ind}except{_py_spec(h['spec'], bare)}{as_}:")
+            kw = "except*" if h.get("star", n.get("star")) else "except"
+            out.append(f"{ind}{kw}{_py_spec(h['spec'], bare)}{as_}:")
             _block(h["b"], rv, out, ind + IND, sc2, bare)
         if n["else"] is not None:
             if not n["hs"]:
@@ -403,13 +535,13 @@ def P(n, out, ind, sc, bare):
         lv = [rv] + [f"{rv}_{i}" for i in range(1, len(n["ms"]))]
         for i, m in enumerate(n["ms"]):
             out.append(f"{cur}{lv[i]} = None")
-            ctor = CTORS[(m["mode"], m["new"])]
+            ctor = _ctor(m)
             arg = str(m["k"])
             if m["stmt"]:
                 out.append(f"{cur}tm{m['k']} = {m['k']}")
                 arg = f"tm{m['k']}"
             as_ = f" as {sc.get(m['var'], m['var'])}" if m["var"] else ""
-            out.append(f"{cur}with {ctor}({arg}){as_}:")
+            out.append(f"{cur}{'async ' if m.get('async') else ''}with {ctor}({arg}){as_}:")
             cur += IND
         _block(n["b"], lv[-1], out, cur, sc, bare)
         for i in range(len(n["ms"]) - 1, 0, -1):
@@ -434,6 +566,13 @@ def render_py(prog, bare=True):
         _block(forms, "_ret", out, IND, {}, bare)
         out.append(f"{IND}return _ret")
         out.append("RESULT = f()")
+    elif ctx == "afn":
+        out.append("async def f():")
+        for r in RVARS:
+            out.append(f"{IND}{r} = '{r}init'")
+        _block(forms, "_ret", out, IND, {}, bare)
+        out.append(f"{IND}return _ret")
+        out.append("RESULT = RUN(f())")
     elif ctx == "loop":
         out.append("RS = []")
         out.append("for i in [0, 1]:")
@@ -459,7 +598,7 @@ def regions(prog):
             walk(n["e"], r)
         elif op in ("id", "set", "ret"):
             walk(n["e"], r)
-        elif op == "raise":
+        elif op in ("raise", "raiseg"):
             reg["raise" + str(n["k"])] = r
         elif op == "try":
             for x in n["b"]:
@@ -475,8 +614,8 @@ def regions(prog):
                 walk(x, "finally")
         elif op == "with":
             for m in n["ms"]:
-                reg[f"{m['k']}:enter"] = "enter"
-                reg[f"{m['k']}:exit"] = "exit"
+                reg[f"{m['k']}:enter"] = reg[f"{m['k']}:aenter"] = "enter"
+                reg[f"{m['k']}:exit"] = reg[f"{m['k']}:aexit"] = "exit"
                 reg[f"{m['k']}:new"] = "mgr"
             for x in n["b"]:
                 walk(x, "withbody")
@@ -499,8 +638,15 @@ def features(prog):
             walk(n["e"], depth)
         elif op in ("raise", "reraise"):
             fs.add("op:" + op)
+        elif op == "raiseg":
+            fs.add("op:raise-group")
+            if any(isinstance(m, list) for m in n["g"]):
+                fs.add("op:raise-nested-group")
         elif op == "try":
             tries.append(n)
+            if n.get("star") and n["hs"]:
+                fs.add("try:except*")
+                fs.add(f"except*:handlers={len(n['hs'])}")
             fs.add(f"depth:{depth + 1}")
             fs.add(f"try:handlers={len(n['hs'])}")
             if n["else"] is not None:
@@ -521,10 +667,18 @@ def features(prog):
         elif op == "with":
             fs.add(f"depth:{depth + 1}")
             fs.add(f"with:managers={len(n['ms'])}")
+            kinds = {bool(m.get("async")) for m in n["ms"]}
+            if len(kinds) == 2:
+                fs.add("with:mixed-sync-async")
             if n.get("single"):
                 fs.add("with:single-item")
             for m in n["ms"]:
                 fs.add("mgr:" + m["mode"])
+                if m.get("async"):
+                    fs.add("mgr:async")
+                    fs.add("mgr:async-" + m["mode"])
+                    if m.get("sus"):
+                        fs.add("mgr:async-suspending")
                 if m["stmt"]:
                     fs.add("mgr:statement-producing")
                 if m["new"]:
@@ -565,7 +719,7 @@ def flat_later_exit_sites(prog):
     """__exit__ sites of managers that are not the first of their `with` form and whose
     expression is a plain expression, so that Hy puts them into the same Python `with`
     statement as the preceding manager (value assignment inside that statement)."""
-    return {f"{m['k']}:exit" for n in walk_nodes(prog) if n["op"] == "with"
+    return {f"{m['k']}:{'aexit' if m.get('async') else 'exit'}" for n in walk_nodes(prog) if n["op"] == "with"
             for m in n["ms"][1:] if not m["stmt"]}
 
 
@@ -582,6 +736,29 @@ def normalise_flat_multi_with(prog):
     return p2
 
 
+def _star_try_assigned(prog):
+    return [n["e"] for n in walk_nodes(prog)
+            if n["op"] == "set" and n["e"]["op"] == "try" and n["e"].get("star") and n["e"]["hs"]
+            and n["e"]["fin"] is None]
+
+
+def feature_assigned_star_try(prog):
+    """(setv/setx x (try ... (except* ...))) without `finally`: Hy renames the try's result
+    temporary to x, so handlers assign x although the remainder of the group is re-raised
+    afterwards (or another except* clause still runs)."""
+    return bool(_star_try_assigned(prog))
+
+
+def normalise_assigned_star_try(prog):
+    """Same program with an empty `(finally)` on those tries: no event added or removed; Hy
+    then keeps the temporary (the rule introduced for try/finally)."""
+    import copy
+    p2 = copy.deepcopy(prog)
+    for t in _star_try_assigned(p2):
+        t["fin"] = []
+    return p2
+
+
 # ---------------------------------------------------------------------------
 # running one rendered program under a plan
 
@@ -591,7 +768,7 @@ UNBOUND = "<unbound>"
 def run_code(code, plan):
     """exec compiled module code in a fresh namespace under a fault plan.
     Returns dict(events, exc, result, finals)."""
-    tr = Trace(plan={int(k): v for k, v in plan})
+    tr = Trace09(plan={int(k): v for k, v in plan})
     ns = env09(tr)
     ns["__name__"] = "hvc09"
     exc = None
@@ -603,7 +780,7 @@ def run_code(code, plan):
         exc = ex
     out = {"events": tr.events, "exc": None, "result": None}
     if exc is not None:
-        out["exc"] = [type(exc).__name__, [token(a) for a in getattr(exc, "args", ())][:3]]
+        out["exc"] = exc_tree(exc)
     else:
         r = ns.get("RESULT", UNBOUND)
         out["result"] = [token(x) for x in r] if isinstance(r, list) else token(r)
@@ -630,12 +807,13 @@ def compile_hy_module(text):
     return compile(tree, "<c09>", "exec"), tree
 
 
-def enumerate_plans(py_code, rng, tier, max_pairs):
+def enumerate_plans(py_code, rng, tier, max_pairs, fault_names=None):
     """All single-fault plans over the events of the fault-free twin run, then
     ordered pairs where the second fault lies in code reached after the first."""
+    fault_names = fault_names or FAULT_NAMES
     base = run_code(py_code, [])
     n = len(base["events"])
-    singles = [[[i, t]] for i in range(1, n + 1) for t in FAULT_NAMES]
+    singles = [[[i, t]] for i in range(1, n + 1) for t in fault_names]
     pairs = []
     firsts = list(singles)
     if tier != "thorough":
@@ -645,7 +823,7 @@ def enumerate_plans(py_code, rng, tier, max_pairs):
             break
         r1 = run_code(py_code, p1)
         m = len(r1["events"])
-        cand = [[p1[0], [j, t]] for j in range(p1[0][0] + 1, m + 1) for t in FAULT_NAMES]
+        cand = [[p1[0], [j, t]] for j in range(p1[0][0] + 1, m + 1) for t in fault_names]
         if tier != "thorough":
             rng.shuffle(cand)
             cand = cand[:3]
